@@ -78,31 +78,8 @@ Section PlanSound.
   Qed.
 End PlanSound.
 
-(* ---------- what a plan yields on k bytes followed by the terminal error t ---------- *)
-(* the error of the first read that cannot be satisfied, [a] bytes being left for it *)
-Definition short_code (o : rop) (a t : N) : N :=
-  match o with
-  | RF _ => if a =? 0 then t else if t =? id_EOF then id_UnexpectedEOF else t
-  | CN _ => t
-  end.
-
-(* reads of one item with [a] bytes left: bytes left afterwards, or the error *)
-Fixpoint item_outcome (ops : list rop) (a t : N) : N + N :=
-  match ops with
-  | [] => inl a
-  | o :: r => if rop_size o <=? a then item_outcome r (a - rop_size o) t
-              else inr (short_code o a t)
-  end.
-
-(* (items completed, error of the first incomplete one) *)
-Fixpoint plan_outcome (items : list (list rop)) (a t : N) (n : N) : N * option N :=
-  match items with
-  | [] => (n, None)
-  | it :: r => match item_outcome it a t with
-               | inl a' => plan_outcome r a' t (N.succ n)
-               | inr e => (n, Some e)
-               end
-  end.
+(* short_code, item_outcome, plan_outcome: what a plan yields on k bytes followed by the terminal
+   error t -- defined in Model/Faults.v (the correspondence run uses them directly for long wires) *)
 
 Lemma lenN_firstn_le (b : bytes) n : n <= lenN b -> lenN (firstn (N.to_nat n) b) = n.
 Proof. rewrite !lenN_length, firstn_length. lia. Qed.
@@ -341,4 +318,37 @@ Proof.
     by (unfold P; now rewrite app_assoc).
   rewrite E. destruct (plan_outcome_spec pre it post k t 0 H1 H2) as (e & -> & He).
   exists e. auto.
+Qed.
+
+(* ---------- the shortcut of the correspondence run is the session ---------- *)
+Lemma seg_go_concat fuel : forall b pend all acc,
+  concat (seg_go fuel b pend all acc) = concat (rev acc) ++ b.
+Proof.
+  induction fuel as [|f IH]; intros b pend all acc; cbn [seg_go].
+  - rewrite frev_rev. cbn [rev]. rewrite concat_app. cbn. now rewrite app_nil_r.
+  - destruct b as [|x b]; [rewrite frev_rev; now rewrite app_nil_r|].
+    destruct (next_size pend all) as [k pend']. destruct (k =? 0).
+    + rewrite frev_rev. cbn [rev]. rewrite concat_app. cbn. now rewrite app_nil_r.
+    + rewrite split_at_spec, IH. cbn [rev]. rewrite concat_app. cbn [concat]. rewrite app_nil_r, <- app_assoc.
+      now rewrite firstn_skipn.
+Qed.
+
+Lemma seal_flat l t tog : flat (seal l t tog) = (concat l, t).
+Proof.
+  induction l as [|x l IH]; [destruct tog; reflexivity|].
+  destruct l as [|y l].
+  - destruct tog; cbn; now rewrite app_nil_r.
+  - change (seal (x :: y :: l) t tog) with (Data x :: seal (y :: l) t tog). cbn [flat]. rewrite IH. reflexivity.
+Qed.
+
+Lemma mk_stream_flat data sizes t tog : flat (mk_stream data sizes t tog) = (data, t).
+Proof. unfold mk_stream. rewrite seal_flat, seg_go_concat. reflexivity. Qed.
+
+(* for every segmentation the harness can ask for, the directly computed outcome is what the
+   session over the simulated transport returns *)
+Theorem rtmp_read_outcome_ok hs ms k t sizes tog :
+  rtmp_read_session hs ms (mk_stream (repeat 0 (N.to_nat k)) sizes t tog) = rtmp_read_outcome hs ms k t.
+Proof.
+  rewrite (rtmp_read_session_spec hs ms _ _ t (mk_stream_flat _ sizes t tog)).
+  unfold rtmp_read_outcome, rtmp_plan. rewrite lenN_length, repeat_length, N2Nat.id. reflexivity.
 Qed.
